@@ -263,6 +263,54 @@ theorem fread_inv (cp : Comp S) (hp : cp.FlushProgress) (body : Bytes) (fs : Nat
         simp only [List.length_nil, Nat.add_zero] at hcons
         omega
 
+/-- a CopyN with a positive limit that copies nothing has seen the end of the source -/
+theorem copyN_zero_iff_done (src : List Bytes) (fs : Nat) (hfs : 0 < fs)
+    (h0 : (copyN src fs).1.flatten.length = 0) : src.flatten = [] ∧ (copyN src fs).2 = [] := by
+  have hz : (copyN src fs).1.flatten = [] := List.eq_nil_of_length_eq_zero h0
+  have hb := copyBuf_pos fs
+  have hsrc : (copyN src fs).2 = [] := copyLoop_zero (copyBuf fs) hb src fs hfs hz
+  have hfl := copyLoop_flatten (copyBuf fs) hb src fs
+  unfold copyN at hz hsrc
+  rw [hz, hsrc] at hfl
+  exact ⟨by simpa using hfl.symm, hsrc⟩
+
+theorem drain_all (fs : Nat) (hfs : 0 < fs) : ∀ (n : Nat) (src : List Bytes), src.flatten.length ≤ n →
+    (drain fs (n + 1) src).1 = src.flatten ∧ (drain fs (n + 1) src).2 = [] := by
+  intro n
+  induction n with
+  | zero =>
+    intro src hlen
+    have hnil : src.flatten = [] := List.eq_nil_of_length_eq_zero (by omega)
+    have hfl := copyLoop_flatten (copyBuf fs) (copyBuf_pos fs) src fs
+    have h0 : (copyN src fs).1.flatten.length = 0 := by
+      have := congrArg List.length hfl
+      unfold copyN
+      rw [hnil] at this
+      simp only [List.length_append, List.length_nil] at this
+      omega
+    have hd := copyN_zero_iff_done src fs hfs h0
+    simp only [drain, h0, if_true]
+    exact ⟨hnil.symm, hd.2⟩
+  | succ n ih =>
+    intro src hlen
+    by_cases h0 : (copyN src fs).1.flatten.length = 0
+    · have hd := copyN_zero_iff_done src fs hfs h0
+      rw [drain]
+      simp only [h0, if_true]
+      exact ⟨hd.1.symm, hd.2⟩
+    · have hfl := copyLoop_flatten (copyBuf fs) (copyBuf_pos fs) src fs
+      have hlen2 : (copyN src fs).2.flatten.length ≤ n := by
+        have := congrArg List.length hfl
+        unfold copyN at h0 ⊢
+        simp only [List.length_append] at this
+        omega
+      have := ih (copyN src fs).2 hlen2
+      rw [drain]
+      simp only [h0, if_false, this.1, this.2]
+      refine ⟨?_, trivial⟩
+      unfold copyN
+      exact hfl
+
 /-! ### a concrete compressor meeting both contracts (non-vacuity of C54_stream)
 
   write emits `1 x` for every byte x, flush emits `0`, close emits `2`. -/
